@@ -84,6 +84,8 @@ class Interp:
     # ------------------------------------------------------------ symbols
     charsets = None     # name of a declared string symbol -> characters its pattern admits (set by the generator)
     nonempty = frozenset()   # names of declared string symbols whose pattern excludes the empty string
+    no_lead_ws = frozenset()   # ... whose pattern (non-empty) cannot start with white space
+    no_trail_ws = frozenset()  # ... cannot end with white space
 
     def fresh_str(self, hint="s", printable=True):
         t = self.ctx.fresh("str", hint)
@@ -136,6 +138,12 @@ class Interp:
         if not (isinstance(a, str) and len(a) >= 1 and isinstance(b, str)) or self.charsets is None:
             return None
         leaves = _concat_leaves(t)
+        # no occurrence at all: some character of `a` can come neither from a literal piece nor from any symbolic piece
+        alphas = [self.alphabet(lf) for lf in leaves]
+        if all(al is not None for al in alphas):
+            everything = set().union(*alphas) if alphas else set()
+            if any(c not in everything for c in a):
+                return SStr(t) if not z3.is_string_value(t) else t.as_string()
         runs = []
         for lf in leaves:
             if z3.is_string_value(lf):
@@ -334,6 +342,18 @@ class Interp:
         pa, pb = prune(sa), prune(sb)
         if (len(pa), len(pb)) != (len(sa), len(sb)):
             return self.oseq_eq(OSeq(pa), OSeq(pb))
+
+        # sequences built from the same base by a different number of removals have different lengths
+        def base_and_dels(term):
+            d = 0
+            while term[0] in ("del_at", "set_at"):
+                d += term[0] == "del_at"
+                term = term[2]
+            return term, d
+        if len(sa) == len(sb) == 1 and sa[0][0] == sb[0][0] == "o":
+            (ba, da), (bb, db) = base_and_dels(sa[0][1]), base_and_dels(sb[0][1])
+            if ba == bb and da != db:
+                return False
         raise Unsupported("equality of opaque sequences with different structure: %r vs %r" % (ka, kb))
 
     def contains(self, item, cont):
@@ -717,12 +737,34 @@ class Interp:
             except IndexError:
                 raise pyraise("IndexError")
         elif isinstance(o, OSeq):
+            if isinstance(k, SInt):
+                self.oseq_set_at(o, k, v)
+                return
             idx = self.oseq_index(o, k)
             o.segs[idx] = ("i", v)
         elif isinstance(o, Obj) and self.lookup_method(o, "__setitem__") is None and isinstance(k, str):
             raise pyraise("TypeError", "object does not support item assignment")
         else:
             raise Unsupported("item store on %s" % type(o).__name__)
+
+    def _found_by_idx(self, o, k):
+        """the found-record whose position symbol is k, for the opaque sequence o currently holds"""
+        if not (isinstance(k, SInt) and z3.is_const(k.t) and len(o.segs) == 1 and o.segs[0][0] == "o"):
+            raise Unsupported("symbolic index into an opaque sequence")
+        for (side, tag), rec in self.__dict__.get("found_records", {}).items():
+            if side == getattr(self, "side", "fn") and rec["idx"].eq(k.t) and rec["term"] == o.segs[0][1]:
+                return rec
+        raise Unsupported("symbolic index that is not a search result of this sequence")
+
+    def oseq_del_at(self, o, k):
+        rec = self._found_by_idx(o, k)
+        o.segs[:] = [("o", ("del_at", rec["tag"], rec["term"]))]
+
+    def oseq_set_at(self, o, k, v):
+        import json as _json
+        from .engine import describe
+        rec = self._found_by_idx(o, k)
+        o.segs[:] = [("o", ("set_at", rec["tag"] + "=" + _json.dumps(describe(v), sort_keys=True, default=str), rec["term"]))]
 
     def oseq_index(self, o, k):
         if is_sym(k) or not isinstance(k, int):
@@ -754,7 +796,10 @@ class Interp:
                 except IndexError:
                     raise pyraise("IndexError")
             elif isinstance(o, OSeq):
-                del o.segs[self.oseq_index(o, k)]
+                if isinstance(k, SInt):
+                    self.oseq_del_at(o, k)
+                else:
+                    del o.segs[self.oseq_index(o, k)]
             else:
                 raise Unsupported("del on %s" % type(o).__name__)
         elif isinstance(t, ast.Name):
@@ -1239,6 +1284,8 @@ class Interp:
                 raise pyraise("IndexError", "string index out of range")
             return SStr(z3.SubString(o.t, k if k >= 0 else n + k, 1))
         if isinstance(o, OSeq):
+            if isinstance(k, SInt):
+                return self._found_by_idx(o, k)["elem"]
             return o.segs[self.oseq_index(o, k)][1]
         if isinstance(o, SplitView):
             return self.split_item(o, k)
@@ -1885,9 +1932,13 @@ class Interp:
             return None
         leaves = _concat_leaves(t)
 
-        def solid(lf):
-            return (z3.is_const(lf) and not z3.is_string_value(lf) and lf.decl().name() in self.charsets
-                    and lf.decl().name() in self.nonempty and not any(c in smt.WSCHARS for c in self.charsets[lf.decl().name()]))
+        def solid(lf, left=True):
+            if not (z3.is_const(lf) and not z3.is_string_value(lf) and lf.decl().name() in self.charsets and lf.decl().name() in self.nonempty):
+                return False
+            nm = lf.decl().name()
+            if not any(c in smt.WSCHARS for c in self.charsets[nm]):
+                return True
+            return nm in (self.no_lead_ws if left else self.no_trail_ws)
 
         def trim(seq, left):
             seq = list(seq)
@@ -1901,7 +1952,7 @@ class Interp:
                         return seq
                     seq.pop(0 if left else -1)
                     continue
-                return seq if solid(lf) else None
+                return seq if solid(lf, left) else None
             return seq
         if mode != "rstrip":
             leaves = trim(leaves, True)
